@@ -763,9 +763,9 @@ Definition applied_snap (r : raft) (s : snapshot) : res raft :=
   let r := set_r_log r (l_stable_snap_to (r_log r) (s_index s)) in
   applied_to r (s_index s) 0.
 
-Definition step_gen (r : raft) (m : message) : res (raft * err) :=
-  (* term preamble; the boolean says whether Step goes on to the type switch *)
-  do pre <-
+(* the term handling at the top of Step; the boolean says whether Step goes on to the
+   type switch *)
+Definition step_preamble (r : raft) (m : message) : res (raft * bool) :=
      (if N.eqb (m_term m) 0 then Ok (r, true)
       else if r_term r <? m_term m then
         let isVote := match m_type m with MsgVote | MsgPreVote => true | _ => false end in
@@ -796,9 +796,10 @@ Definition step_gen (r : raft) (m : message) : res (raft * err) :=
             end
         | _ => Ok (r, false)
         end
-      else Ok (r, true));
-  let '(r, cont) := pre in
-  if negb cont then Ok (r, ENone) else
+      else Ok (r, true)).
+
+(* the type switch of Step *)
+Definition step_dispatch (r : raft) (m : message) : res (raft * err) :=
       match m_type m with
       | MsgHup =>
           do r <- hup r (if r_pre_vote r then CampaignPreElection else CampaignElection); Ok (r, ENone)
@@ -837,6 +838,11 @@ Definition step_gen (r : raft) (m : message) : res (raft * err) :=
           | StateLeader => step_leader r m
           end
       end.
+
+Definition step_gen (r : raft) (m : message) : res (raft * err) :=
+  do pre <- step_preamble r m;
+  let '(r, cont) := pre in
+  if negb cont then Ok (r, ENone) else step_dispatch r m.
 End StepGen.
 
 (* The nested call only ever carries the leave-joint MsgProp, whose handling never reaches
